@@ -51,3 +51,42 @@ def _hash_zero(repo):
         raise KeyError("impl Hash for Value: no arm feeding 0u8")
     names = re.findall(r"ValueRepr::(\w+)", m.group(1))
     return names, "def hashSharedZeroKinds : List String := [" + ", ".join(lean_str(n) for n in names) + "]"
+
+
+@item("C07_QUERY_LEN_ARMS")
+def _query_len_arms(repo):
+    """`Enumerator::query_len` (the default body of `Object::enumerator_len`): per variant either a
+    direct length (`direct`), `none`, or a size-hint test `(a, Some(b)) if a OP b => a` (the OP)."""
+    src = read(repo, "minijinja/src/value/object.rs")
+    body = fn_body(src, r"fn query_len\(&self\)\s*->\s*Option<usize>\s*\{")
+    inner = fn_body(body, r"match\s+self\s*\{")
+    inner = re.sub(r"//.*", "", inner)
+    rows = {}
+    rest = inner
+    # size-hint arms
+    for m in re.finditer(r"Enumerator::(\w+)\(\s*(\w+)\s*\)\s*=>\s*match\s+\2\.size_hint\(\)\s*\{\s*"
+                         r"\(\s*(\w+)\s*,\s*Some\(\s*(\w+)\s*\)\s*\)\s*if\s+(\w+)\s*(==|<=|>=|<|>|!=)\s*(\w+)\s*=>\s*(\w+)\s*,\s*"
+                         r"_\s*=>\s*return\s+None\s*,\s*\}\s*,", inner):
+        name, _, a, b, l, op, rr, ret = m.groups()
+        if (l, rr) != (a, b) or ret != a:
+            raise KeyError(f"query_len arm {name}: guard/result not of the form `(a, Some(b)) if a OP b => a`")
+        rows[name] = op
+        rest = rest.replace(m.group(0), "")
+    for m in re.finditer(r"Enumerator::(\w+)(?:\(\s*(\w+)\s*\))?\s*=>\s*(return\s+None|0|\*?\w+(?:\.len\(\))?)\s*,", rest):
+        name, var, expr = m.groups()
+        if expr.startswith("return"):
+            rows[name] = "none"
+        elif expr == "0" or (var and expr in (f"*{var}", f"{var}.len()")):
+            rows[name] = "direct"
+        else:
+            raise KeyError(f"query_len arm {name}: unexpected result `{expr}`")
+        rest = rest.replace(m.group(0), "")
+    if rest.strip():
+        raise KeyError(f"unparsed rest of query_len: `{rest.strip()[:80]}`")
+    order = ["Empty", "Values", "Str", "Iter", "KeyValueIter", "RevIter", "RevKeyValueIter", "Seq", "NonEnumerable"]
+    missing = [n for n in order if n not in rows]
+    if missing:
+        raise KeyError(f"query_len: no arm for {missing}")
+    lst = [(n, rows[n]) for n in order] + [(n, v) for n, v in sorted(rows.items()) if n not in order]
+    lean = "def queryLenArms : List (String × String) := [" + ", ".join(f"({lean_str(a)}, {lean_str(b)})" for a, b in lst) + "]"
+    return lst, lean
